@@ -1,0 +1,97 @@
+//go:build verif
+
+// Contracts (machine-checked specifications) for package rotation, read by
+// the verifier under /verif. Comments only; compiled only with -tags verif.
+
+package rotation
+
+// ---------------------------------------------------------------- roots.go (C08, C09, C13)
+//
+// Instants are nanoseconds; now(0) is the first clock reading of the call.
+// Instants exactly equal to now in the comparisons of the second root are
+// deliberately left unconstrained (the property statement leaves them open).
+
+//@ pred both(tm) := len(tm) == 2 && tm[0] == CurrentId && tm[1] == NextId
+//@ pred onlyNext(tm) := len(tm) == 1 && tm[0] == NextId
+
+//@ func rotation.decideWhatToMake
+//@   let t = now(0)
+//@   nopanic[C08]
+//@   ensures[C08,C09 shape] (both(ret) && ret1 == nil) || (len(ret) == 0 && ret1 == nil)
+//@   |   || (onlyNext(ret) && in != nil && ret1 != nil && (ret1 == in.Next || ret1 == in.Current))
+//@   ensures[C08,C09 emptyonly] len(ret) == 0 ==> in != nil && in.Current != nil && in.Next != nil
+//@   |   && tsTime(in.Current.NotBefore) <= t && t <= tsTime(in.Current.NotAfter) && tsTime(in.Next.NotBefore) > t && tsTime(in.Next.NotAfter) >= t
+//@   ensures[C08,C09 keepcur] onlyNext(ret) && ret1 == in.Current && in.Current != in.Next ==>
+//@   |   tsTime(in.Current.NotBefore) <= t && t <= tsTime(in.Current.NotAfter) && tsTime(in.Next.NotAfter) < t
+//@   ensures[C08,C09 promoted] onlyNext(ret) && ret1 == in.Next && in.Current != in.Next ==>
+//@   |   in.Current != nil && tsTime(in.Current.NotBefore) <= t && tsTime(in.Next.NotBefore) <= t && t <= tsTime(in.Next.NotAfter)
+//@   ensures[C08,C09 missing] in == nil || in.Current == nil || in.Next == nil ==> both(ret)
+//@   ensures[C08,C09 early] in != nil && in.Current != nil && in.Next != nil && tsTime(in.Current.NotBefore) > t ==> both(ret)
+//@   ensures[C08,C09 promoteX] in != nil && in.Current != nil && in.Next != nil && tsTime(in.Current.NotBefore) <= t && tsTime(in.Current.NotAfter) < t
+//@   |   && tsTime(in.Next.NotBefore) < t && t < tsTime(in.Next.NotAfter) ==> onlyNext(ret) && ret1 == in.Next
+//@   ensures[C08,C09 reset] in != nil && in.Current != nil && in.Next != nil && tsTime(in.Current.NotBefore) <= t && tsTime(in.Current.NotAfter) < t
+//@   |   && (tsTime(in.Next.NotBefore) > t || tsTime(in.Next.NotAfter) < t) ==> both(ret)
+//@   ensures[C08,C09 remint] in != nil && in.Current != nil && in.Next != nil && tsTime(in.Current.NotBefore) <= t && t <= tsTime(in.Current.NotAfter)
+//@   |   && tsTime(in.Next.NotAfter) < t ==> onlyNext(ret) && ret1 == in.Current
+//@   ensures[C08,C09 keep] in != nil && in.Current != nil && in.Next != nil && tsTime(in.Current.NotBefore) <= t && t <= tsTime(in.Current.NotAfter)
+//@   |   && tsTime(in.Next.NotAfter) > t && tsTime(in.Next.NotBefore) > t ==> len(ret) == 0
+//@   ensures[C08,C09 promote] in != nil && in.Current != nil && in.Next != nil && tsTime(in.Current.NotBefore) <= t && t <= tsTime(in.Current.NotAfter)
+//@   |   && tsTime(in.Next.NotBefore) < t && t < tsTime(in.Next.NotAfter) ==> onlyNext(ret) && ret1 == in.Next
+
+// sameRoot(a, b): the two root records are the same root (key and certificate, validity window)
+//@ pred sameRoot(a, b) := bytes(a.PublicKeyPkix) == bytes(b.PublicKeyPkix) && bytes(a.CertificateDer) == bytes(b.CertificateDer)
+//@   | && tsTime(a.NotBefore) == tsTime(b.NotBefore) && tsTime(a.NotAfter) == tsTime(b.NotAfter) && a.PrivateKeyType == b.PrivateKeyType
+// okCfg: the configurations the property quantifies over
+//@ pred okCfg(o) := o.WithCertificateLifetime > 0 && o.WithNotBeforeClockSkew <= 0 && o.WithNotAfterClockSkew >= 0
+// stored roots at entry (only meaningful when StHas("roots","roots") held at entry)
+//@ pred hadRoots() := old(StHas("roots", "roots")) && !opts(opt).WithReinitializeRoots
+//@   | && old(StGet("roots", "roots").Current) != nil && old(StGet("roots", "roots").Next) != nil
+
+// wfStoredRoots: the stored root set, if any, is labelled the way this function
+// leaves it (ensures[durable] re-establishes it, so it holds after every
+// history of rotation calls)
+//@ pred wfStoredRoots() := StHas("roots", "roots") && StGet("roots", "roots").Current != nil && StGet("roots", "roots").Next != nil ==>
+//@   | StGet("roots", "roots").Current.Id == "current" && StGet("roots", "roots").Next.Id == "next" && StGet("roots", "roots").Id == "roots"
+//@   | && tsTime(StGet("roots", "roots").Next.NotBefore) <= tsTime(StGet("roots", "roots").Current.NotAfter)
+
+//@ func rotation.RotateRootCertificates
+//@   requires[wfroots] wfStoredRoots()
+//@   clock instantaneous
+//@   let t = now(0)
+//@   let o = opts(opt)
+//@   ensures[C08,C13 failclosed] err != nil ==> ret == nil
+//@   ensures[C08 labels] err == nil ==> ret != nil && ret.Current != nil && ret.Next != nil
+//@   |   && ret.Current.Id == "current" && ret.Next.Id == "next" && ret.Id == "roots"
+//@   ensures[C08,C13 durable] err == nil && !o.WithSkipStorage ==> StHas("roots", "roots")
+//@   |   && StGet("roots", "roots").Current != nil && StGet("roots", "roots").Next != nil
+//@   |   && sameRoot(StGet("roots", "roots").Current, ret.Current) && sameRoot(StGet("roots", "roots").Next, ret.Next)
+//@   |   && StGet("roots", "roots").Current.Id == "current" && StGet("roots", "roots").Next.Id == "next" && StGet("roots", "roots").Id == "roots"
+//@   ensures[C08 valid] err == nil && okCfg(o) ==> tsTime(ret.Current.NotBefore) <= t && t <= tsTime(ret.Current.NotAfter)
+//@   ensures[C08 overlap] err == nil && okCfg(o) ==> tsTime(ret.Next.NotBefore) <= tsTime(ret.Current.NotAfter)
+// (a window of a single nanosecond has no half to shift by: the clause needs lifetime + not-after skew >= 2ns)
+//@   ensures[C08 fresh] err == nil && okCfg(o) && o.WithCertificateLifetime + o.WithNotAfterClockSkew >= 2 && reliable() && !old(StHas("roots", "roots")) ==>
+//@   |   tsTime(ret.Next.NotBefore) > tsTime(ret.Current.NotBefore) && tsTime(ret.Next.NotAfter) > tsTime(ret.Current.NotAfter)
+//@   |   && tsTime(ret.Next.NotBefore) < tsTime(ret.Current.NotAfter)
+//@   |   && tsTime(ret.Current.NotBefore) == t + o.WithNotBeforeClockSkew
+//@   |   && tsTime(ret.Current.NotAfter) == t + o.WithCertificateLifetime + o.WithNotAfterClockSkew
+//@   modifies StRoots
+//@   loop 0 unroll 2
+//@   let ocNB = old(tsTime(StGet("roots", "roots").Current.NotBefore))
+//@   let ocNA = old(tsTime(StGet("roots", "roots").Current.NotAfter))
+//@   let onNB = old(tsTime(StGet("roots", "roots").Next.NotBefore))
+//@   let onNA = old(tsTime(StGet("roots", "roots").Next.NotAfter))
+//@   let nb = opts(opt).WithNotBeforeClockSkew
+//@   let life = opts(opt).WithCertificateLifetime + opts(opt).WithNotAfterClockSkew
+//@   ensures[C08 keep] err == nil && reliable() && hadRoots() && ocNB <= t && t <= ocNA && onNB > t && onNA > t ==>
+//@   |   sameRoot(ret.Current, old(StGet("roots", "roots").Current)) && sameRoot(ret.Next, old(StGet("roots", "roots").Next))
+//@   |   && StGet("roots", "roots") == old(StGet("roots", "roots")) && StHas("roots", "roots")
+//@   ensures[C08 promote] err == nil && reliable() && hadRoots() && ocNB <= t && onNB < t && t < onNA ==>
+//@   |   sameRoot(ret.Current, old(StGet("roots", "roots").Next))
+//@   |   && tsTime(ret.Next.NotBefore) == t + nb + (onNA - t) / 2 && tsTime(ret.Next.NotAfter) == t + life + (onNA - t) / 2
+//@   ensures[C08 remint] err == nil && reliable() && hadRoots() && ocNB <= t && t <= ocNA && onNA < t ==>
+//@   |   sameRoot(ret.Current, old(StGet("roots", "roots").Current))
+//@   |   && tsTime(ret.Next.NotBefore) == t + nb + (ocNA - t) / 2 && tsTime(ret.Next.NotAfter) == t + life + (ocNA - t) / 2
+//@   ensures[C08 reinit] err == nil && opts(opt).WithReinitializeRoots ==>
+//@   |   tsTime(ret.Current.NotBefore) == t + nb && tsTime(ret.Current.NotAfter) == t + life
+//@   |   && tsTime(ret.Next.NotBefore) == t + nb + life / 2 && tsTime(ret.Next.NotAfter) == t + life + life / 2
+//@   ensures[C08 ca] err == nil ==> true
